@@ -137,7 +137,7 @@ def check_roundtrip(ctx, obj, sigs, ks, ids, meta, comp, desc, path):
 	# the path as str or pathlib.Path; the collection itself, or the same collection first stored in another file and copied
 	# file -> file (the source is then a file-backed collection)
 	import pathlib
-	variant = ['direct', 'direct', 'via-file', 'path-object'][ctx.evals % 4]
+	variant = ['direct', 'direct', 'via-file', 'path-object', 're-annotated', 're-annotated-file'][ctx.evals % 6]
 	desc = dict(desc, write_variant=variant)
 	ctx.count(f'write_variant:{variant}')
 	src = None
@@ -149,6 +149,20 @@ def check_roundtrip(ctx, obj, sigs, ks, ids, meta, comp, desc, path):
 			dump_signatures(str(path), src, **kw)
 		elif variant == 'path-object':
 			dump_signatures(pathlib.Path(str(path)), obj, **kw)
+		elif variant in ('re-annotated', 're-annotated-file'):
+			# the collection carries OLD annotations (a wrapper, or a signature file on disk) and is given new ids / metadata by wrapping
+			# it once more: what is written are the annotations of the object handed to dump_signatures
+			from gambit.sigs.base import AnnotatedSignatures
+			n_ = len(sigs)
+			base_ = obj.signatures if isinstance(obj, AnnotatedSignatures) else obj
+			decoy_ids = [f'old-{j}' for j in range(n_)] if not (ids is not None and len(ids) and isinstance(list(ids)[0], str)) else list(range(900, 900 + n_))
+			inner = AnnotatedSignatures(base_, decoy_ids, SignaturesMeta(id='old-set', name='old name', version='0.1', id_attr='refseq_acc', description='old', extra={'old': True}))
+			if variant == 're-annotated-file':
+				tmp = pathlib.Path(str(path) + '.src')
+				dump_signatures(tmp, inner)
+				src = inner = load_signatures(tmp)
+			outer = AnnotatedSignatures(inner, list(range(n_)) if ids is None else ids, SignaturesMeta() if meta is None else meta)
+			dump_signatures(str(path), outer, **kw)
 		else:
 			dump_signatures(str(path), obj, **kw)
 	except Exception as e:
